@@ -209,9 +209,31 @@ def minimise(table):
     return out
 
 
+def _effect_target(text):
+    """`push vars "..."` / `insert files [..]` / `set var_index = ..` -> the piece of state the effect changes"""
+    parts = str(text).split(" ", 2)
+    return parts[1] if len(parts) >= 2 else str(text)
+
+
+def _canon_effects(table):
+    """Effects on different pieces of the manager's state commute (every value in them is already resolved against the
+    state at the point it was computed): only the order of the effects on one and the same piece is meaningful (the order
+    of the bindings pushed to `vars`, of the instructions pushed to `fini`).  Effects are therefore grouped by target, in
+    the order the targets are first changed... sorted by target name so that two orders of independent updates give
+    the same row."""
+    out = {}
+    for k, row in table.items():
+        eff = row.get("effects")
+        if isinstance(eff, list) and len(eff) > 1:
+            keyed = sorted(enumerate(eff), key=lambda ie: (_effect_target(ie[1]), ie[0]))
+            row = dict(row, effects=[e for _, e in keyed])
+        out[k] = row
+    return out
+
+
 def diff_tables(c, rule, site, got_rows, want_rows, what, only=None, fields=("tokens", "outcome", "effects")):
     """One obligation per semantic row: extracted == frozen (both in minimal form)."""
-    g, w = minimise(expand(got_rows)), minimise(expand(want_rows))
+    g, w = minimise(_canon_effects(expand(got_rows))), minimise(_canon_effects(expand(want_rows)))
     n = 0
     for key in sorted(set(g) | set(w)):
         if only is not None and not only(key):
